@@ -4,7 +4,7 @@ manifest can never drift from what ./run supports)."""
 import json, subprocess, os
 
 HOOK_COMMITS = ["61b94ce", "8f421be"]
-FIX_COMMITS = ["a51fb22", "b0c8ea5", "98c1f4b", "e663d4c", "32aebe9"]
+FIX_COMMITS = ["a51fb22", "b0c8ea5", "98c1f4b", "e663d4c", "32aebe9", "fc86303"]
 
 # id -> (engine, category, technique, text, note, design_ref)
 CHECKS = {}
@@ -44,6 +44,12 @@ add("C06", "E", "exploration",
     "Every input of the listed finite families goes through Packet::read (all token hints), read_panic_on_decompression, decompress_if_needed, is_initial and ChunksIter of both versions; oracle: returns, no panic, pointer ranges of returned slices inside input or scratch buffer, fields in range, accepted values write and re-read equal.",
     "Trusted: the families are a bound (strings >3 bytes only through structured corruption); memory safety beyond pointer-range checks is covered by the ASan/Miri runs of C19.",
     "DESIGN.md 3/C06")
+
+add("C20", "X", "model_checking",
+    "explicit-state model checking (stateright BFS) of one real Net against per-address reference connections (differential oracle on every transition)",
+    "Every reachable state of a real Net (accepting and non-accepting) serving 2-3 addresses with real remote connections, within budgets; after each transition events, outgoing datagrams with destination, needs_tick and the complete per-peer state are compared with per-address reference connections fed the projected history; peer ids distinct (also across the 2^32 wrap).",
+    "Trusted: stateright search; the reference is the same Connection code run in isolation (this check is about routing/bookkeeping in Net, not about the connection logic); the application reacts to Connect events immediately.",
+    "DESIGN.md 3/C20")
 
 NOT_YET = {}
 
